@@ -124,6 +124,7 @@ inductive Res where
   | notFound                        -- cmsys.ErrRecordNotFound
   | noFile                          -- open(article) fails
   | lockErr                         -- the article lock was not obtained in any of the 5 attempts of doAddRecommend
+  | writeErr                        -- write(2) on the article failed (EFBIG / ENOSPC / EDQUOT) after the open succeeded
   | idxErr                          -- ptttype.ErrInvalidIdx from ModifyDirLite
   | osErr                           -- short read / seek error
   deriving Repr, DecidableEq
@@ -187,7 +188,7 @@ def doAddRecommend (st : St) (idx : Nat) (r line : Bytes) (ctype : Nat) (mtime :
 0448f6d; the requested letter plays no role), marked ∧ solved of the entry. -/
 def refusedBy (cfg : Cfg) (_q : Req) (r : Bytes) : Bool :=
   let fm := r.getD offFilemode 0
-  hasBit cfg.attr BRD_NORECOMMEND || r.getD offFilename 0 == 76 || (hasBit fm FILE_MARKED && hasBit fm FILE_SOLVED)
+  hasBit cfg.attr BRD_NORECOMMEND || r.getD offFilename 0 == 76 || (hasBit fm Gen.Comment.FILE_MARKED && hasBit fm Gen.Comment.FILE_SOLVED)
 
 /-- `bytes.ContainsAny(content, "\n\r")`. -/
 def hasLineBreak (text : Bytes) : Bool := text.any (fun b => b == 10 || b == 13)
@@ -256,6 +257,40 @@ def phaseB (st : St) (t : Ticket) : St × Res :=
   | .error e => (st, e)
   | .ok st1 => phaseIndex st1 t
 
+/-! ### a write that fails after the open
+
+Both append functions (`doAddRecommendNoSmartMerge`, the branch of EDITPOST_SMARTMERGE = false, and
+`doAddRecommendSmartMerge`) do `file.Write(comment)` on an O_APPEND descriptor and return its error.  When only
+`room` more bytes fit (file-size limit: EFBIG; full disk: ENOSPC; quota: EDQUOT) the kernel writes the first
+`room` bytes of the line and the call fails: the torn beginning of the line stays behind the old content, no
+byte of the old content is touched, doAddRecommend returns before it looks at the index.  (The smart-merge
+branch repeats the attempt four more times, one second apart; nothing fits any more, so nothing more is
+written.) -/
+
+def phaseWriteFault (st : St) (t : Ticket) (room : Nat) : St :=
+  let fname := cstr (field t.copy offFilename lenFilename)
+  match fileGet st.files fname with
+  | none => st
+  | some old => { st with files := fileSet st.files fname (old ++ t.line.take room) }
+
+/-- Recommend when at most `room` more bytes fit into the article. -/
+def recommendFault (find : Bytes → Nat → Bytes → Option Nat) (cfg : Cfg) (st : St) (q : Req) (room : Nat) : St × Res :=
+  match phaseA find cfg st q with
+  | .error e => (st, e)
+  | .ok t =>
+    if room < t.line.length then
+      match fileGet st.files (cstr (field t.copy offFilename lenFilename)) with
+      | none => (st, .noFile)
+      | some _ => (phaseWriteFault st t room, .writeErr)
+    else phaseB st t
+
+/-- the rule of seeded change C10-r4-2: after a failed write of which `n` bytes arrived, "take the torn comment
+back" by truncating to (size - len(comment)) - the whole length, not `n` (a negative size is refused by
+ftruncate and nothing happens). -/
+def truncateBackRule (old line : Bytes) (n : Nat) : Bytes :=
+  let cur := old ++ line.take n
+  if cur.length < line.length then cur else cur.take (cur.length - line.length)
+
 /-- another process that holds the article's lock appends bytes (O_APPEND) to an existing article. -/
 def extAppend (st : St) (n bs : Bytes) : St :=
   match fileGet st.files n with
@@ -269,6 +304,7 @@ inductive Ev where
   | write (i : Nat)
   | index (i : Nat)
   | giveUp (i : Nat)                    -- the lock was never obtained: the call returns the lock error
+  | writeFault (i room : Nat)           -- the write fails after `room` bytes: the call returns the write error
   | ext (name : Bytes) (bs : Bytes)     -- another holder of the article lock (another process) appends
   deriving Repr
 
@@ -294,6 +330,10 @@ def stepEv (find : Bytes → Nat → Bytes → Option Nat) (s : Sys) : Ev → Sy
     | none => s
     | some t => { st := (phaseIndex s.st t).1, pending := s.pending.eraseIdx i }
   | .giveUp i => { s with pending := s.pending.eraseIdx i }
+  | .writeFault i room =>
+    match s.pending[i]? with
+    | none => s
+    | some t => { st := phaseWriteFault s.st t room, pending := s.pending.eraseIdx i }
   | .ext n bs => { s with st := extAppend s.st n bs }
 
 def runEv (find : Bytes → Nat → Bytes → Option Nat) (s : Sys) (evs : List Ev) : Sys := evs.foldl (stepEv find) s
